@@ -41,9 +41,20 @@ func c09Cfg() advCfg {
 	return c
 }
 
-func c09WriteSummary(ws []simWrite) string {
+// c09WriteSummary counts transmissions per destination and content. Multicast
+// RAs are summarised by content only (count returned separately): how many of
+// them serve k solicitations from :: depends on when those are read relative
+// to a pending multicast RA, and the reader's lag legitimately differs between
+// the two runs by the receive back-off.
+func c09WriteSummary(ws []simWrite) (string, int) {
 	m := map[string]int{}
+	multicast := 0
 	for _, w := range ws {
+		if w.Dst == vkAllNodes {
+			multicast++
+			m[w.Dst.String()+" "+w.RA] = 1
+			continue
+		}
 		m[w.Dst.String()+" "+w.RA]++
 	}
 	var ks []string
@@ -51,7 +62,7 @@ func c09WriteSummary(ws []simWrite) string {
 		ks = append(ks, fmt.Sprintf("%dx %s", n, k))
 	}
 	sort.Strings(ks)
-	return strings.Join(ks, "\n")
+	return strings.Join(ks, "\n"), multicast
 }
 
 func c09Prop(t *testing.T, k *verifkit.Kit) func(c c09Case) error {
@@ -155,8 +166,21 @@ func c09Prop(t *testing.T, k *verifkit.Kit) func(c c09Case) error {
 			v := err.(*verifkit.Violation)
 			return verifkit.Violf("C09/"+strings.TrimPrefix(v.Sig, "C07/"), "%s", v.Msg)
 		}
-		if a, b := c09WriteSummary(full.Writes), c09WriteSummary(ref.Writes); a != b {
+		a, ma := c09WriteSummary(full.Writes)
+		b, mb := c09WriteSummary(ref.Writes)
+		if a != b {
 			return verifkit.Violf("C09/transmissions-differ", "transmissions differ from the sequence without invalid messages:\nwith:\n%s\nwithout:\n%s\n%s", a, b, tl)
+		}
+		// k valid solicitations from :: are served by 1..k multicast RAs in either run (C06, judged
+		// by the C07 rules above): the two counts may differ by at most k-1, and not at all otherwise
+		fromUnspec := 0
+		for _, e := range filtered {
+			if e.Kind == "rs" && e.From == "::" {
+				fromUnspec += max(e.N, 1)
+			}
+		}
+		if d := ma - mb; d > max(fromUnspec-1, 0) || -d > max(fromUnspec-1, 0) {
+			return verifkit.Violf("C09/transmissions-differ", "%d multicast RAs with the invalid messages, %d without (%d valid solicitations from ::)\n%s", ma, mb, fromUnspec, tl)
 		}
 		if len(full.Hooks) != len(ref.Hooks) {
 			return verifkit.Violf("C09/consistency-checks-differ", "%d inconsistency notifications with invalid messages, %d without\n%s", len(full.Hooks), len(ref.Hooks), tl)
